@@ -63,6 +63,35 @@ pub enum Val {
     Err(String),
     Display(String),
     Debug(String),
+    /// an event field whose Debug impl emits an event of its own (through the same dispatcher)
+    /// before printing the text's Debug form; as a span field it is a plain Debug value
+    Emits(String),
+}
+
+static NESTED_CS: Cs2 = Cs2;
+struct Cs2;
+impl Callsite for Cs2 {
+    fn set_interest(&self, _: Interest) {}
+    fn metadata(&self) -> &Metadata<'_> {
+        &NESTED_META
+    }
+}
+static NESTED_META: Metadata<'static> = Metadata::new("nested event", "nested", Level::INFO, None, None, None, FieldSet::new(&["inner"], identify_callsite!(&NESTED_CS)), Kind::EVENT);
+thread_local! {
+    static NEST: std::cell::RefCell<Option<Dispatch>> = const { std::cell::RefCell::new(None) };
+}
+struct Emitter(String);
+impl std::fmt::Debug for Emitter {
+    fn fmt(&self, f: &mut std::fmt::Formatter<'_>) -> std::fmt::Result {
+        let d = NEST.with(|n| n.borrow().clone());
+        if let Some(d) = d {
+            let fs = NESTED_META.fields();
+            let fld = fs.field("inner").unwrap();
+            let v = 7u64;
+            d.event(&Event::new(&NESTED_META, &fs.value_set(&[(&fld, Some(&v as &dyn Value))])));
+        }
+        write!(f, "{:?}", self.0)
+    }
 }
 
 #[derive(Debug)]
@@ -90,8 +119,16 @@ enum Owned {
     Err(Box<dyn std::error::Error + 'static>),
     Display(tracing_core::field::DisplayValue<String>),
     Debug(tracing_core::field::DebugValue<String>),
+    Emits(tracing_core::field::DebugValue<Emitter>),
 }
 impl Owned {
+    /// values of an event: `Emits` really emits
+    fn of_event(v: &Val) -> Owned {
+        match v {
+            Val::Emits(s) => Owned::Emits(tracing_core::field::debug(Emitter(s.clone()))),
+            other => Owned::of(other),
+        }
+    }
     fn of(v: &Val) -> Owned {
         match v {
             Val::I64(x) => Owned::I64(*x),
@@ -104,7 +141,7 @@ impl Owned {
             Val::Bytes(b) => Owned::Bytes(b.clone().into_boxed_slice()),
             Val::Err(s) => Owned::Err(Box::new(MyErr(s.clone(), Some(Box::new(MyErr("the cause".into(), None)))))),
             Val::Display(s) => Owned::Display(tracing_core::field::display(s.clone())),
-            Val::Debug(s) => Owned::Debug(tracing_core::field::debug(s.clone())),
+            Val::Debug(s) | Val::Emits(s) => Owned::Debug(tracing_core::field::debug(s.clone())),
         }
     }
     fn as_value(&self) -> &dyn Value {
@@ -120,6 +157,7 @@ impl Owned {
             Owned::Err(x) => x,
             Owned::Display(x) => x,
             Owned::Debug(x) => x,
+            Owned::Emits(x) => x,
         }
     }
 }
@@ -169,7 +207,7 @@ fn faithful(v: &Val, j: &J) -> Result<(), String> {
             J::Str(t) if t == s => Ok(()),
             _ => bad("the same string"),
         },
-        Val::Debug(s) => match j {
+        Val::Debug(s) | Val::Emits(s) => match j {
             J::Str(t) if *t == format!("{s:?}") => Ok(()),
             _ => bad("the Debug text"),
         },
@@ -302,6 +340,19 @@ fn run_case_inner(case: &Case) -> Outcome {
         }
     };
     let _g = tracing_core::dispatch::set_default(&d);
+    // nested emission only without the per-layer filter (a nested Dispatch::event between the
+    // outer enabled() and event() calls would disturb the per-layer filter state: F3's ground)
+    struct NestGuard;
+    impl Drop for NestGuard {
+        fn drop(&mut self) {
+            NEST.with(|n| *n.borrow_mut() = None);
+        }
+    }
+    let nesting = hidden_meta.is_none();
+    if nesting {
+        NEST.with(|n| *n.borrow_mut() = Some(d.clone()));
+    }
+    let _ng = NestGuard;
     let event_metas = [&METAS[3], &METAS[4], &METAS[5]];
 
     // model of each span: name + last written value per field
@@ -417,7 +468,8 @@ fn run_case_inner(case: &Case) -> Outcome {
         let meta = event_metas[ev.meta as usize % 3];
         let nf = meta.fields().len();
         let vals: Vec<Option<Val>> = (0..nf).map(|i| ev.values.get(i).cloned().flatten()).collect();
-        let owned: Vec<Option<Owned>> = vals.iter().map(|v| v.as_ref().map(Owned::of)).collect();
+        let owned: Vec<Option<Owned>> = vals.iter().map(|v| v.as_ref().map(Owned::of_event)).collect();
+        let n_nested = if nesting { vals.iter().flatten().filter(|v| matches!(v, Val::Emits(_))).count() } else { 0 };
         out.0.lock().unwrap().clear();
         let ev_parent = if hidden_meta.is_some() { None } else { ev.parent };
         let parent = ev_parent.and_then(|p| chain.get(p as usize % chain.len().max(1)));
@@ -428,9 +480,18 @@ fn run_case_inner(case: &Case) -> Outcome {
             Some(p) => d.event(&Event::new_child_of(p.id.clone(), meta, vs)),
             None => d.event(&Event::new(meta, vs)),
         });
-        let writes = out.0.lock().unwrap().clone();
-        if writes.len() != 1 {
-            return fail("not exactly one write per event", format!("{} writes", writes.len()), "");
+        let mut writes = out.0.lock().unwrap().clone();
+        if writes.len() != 1 + n_nested {
+            return fail("not exactly one write per event", format!("{} writes, {} events (one outer, the others emitted by field values while it was formatted)", writes.len(), 1 + n_nested), "");
+        }
+        // the records of the nested events come first, each a line of its own
+        for w in writes.drain(..n_nested) {
+            let l = String::from_utf8_lossy(&w).to_string();
+            let ok = l.ends_with('\n') && l.matches('\n').count() == 1 && matches!(json::parse(l.trim_end_matches('\n')), Ok(j @ J::Obj(_)) if (if case.flatten { j.get("inner").cloned() } else { j.get("fields").and_then(|f| f.get("inner").cloned()) }) == Some(J::Num("7".into())));
+            if !ok {
+                return fail("record of an event emitted from inside a field value is not one valid line", String::new(), &l);
+            }
+            classes.push("event_emitted_while_another_is_formatted".into());
         }
         let line = match String::from_utf8(writes[0].clone()) {
             Ok(l) => l,
@@ -449,7 +510,7 @@ fn run_case_inner(case: &Case) -> Outcome {
         let Some(container) = container else { return fail("event fields object missing", String::new(), &line) };
         for (i, f) in meta.fields().iter().enumerate() {
             if let Some(v) = &vals[i] {
-                if f.name().chars().any(|c| c == '"' || c == '\\' || (c as u32) < 0x20 || c == '\u{2028}') || matches!(v, Val::Str(s) | Val::Display(s) | Val::Debug(s) | Val::Err(s) if s.chars().any(|c| c == '"' || c == '\\' || (c as u32) < 0x20)) {
+                if f.name().chars().any(|c| c == '"' || c == '\\' || (c as u32) < 0x20 || c == '\u{2028}') || matches!(v, Val::Str(s) | Val::Display(s) | Val::Debug(s) | Val::Emits(s) | Val::Err(s) if s.chars().any(|c| c == '"' || c == '\\' || (c as u32) < 0x20)) {
                     escapes = true;
                 }
                 // reserved keys of the formatter collide only in flatten mode
@@ -592,6 +653,7 @@ fn val_strategy() -> BoxedStrategy<Val> {
         1 => string_strategy().prop_map(Val::Err),
         1 => string_strategy().prop_map(Val::Display),
         1 => string_strategy().prop_map(Val::Debug),
+        1 => string_strategy().prop_map(Val::Emits),
     ]
     .boxed()
 }
@@ -604,7 +666,8 @@ fn fuzz_val(u: &mut arbitrary::Unstructured<'_>) -> Val {
         let n = u.int_in_range(0u8..=16).unwrap_or(0) as usize;
         String::from_utf8_lossy(u.bytes(n.min(u.len())).unwrap_or(&[])).into_owned()
     };
-    match u.int_in_range(0u8..=11).unwrap_or(0) {
+    match u.int_in_range(0u8..=12).unwrap_or(0) {
+        12 => Val::Emits(text(u)),
         11 => {
             let pad = u.int_in_range(0u8..=3).unwrap_or(0) as usize;
             let c = ['\u{e9}', '\u{20ac}', '\u{1f980}', '"'][u.int_in_range(0u8..=3).unwrap_or(0) as usize];
